@@ -407,8 +407,8 @@ async fn run_stall_concurrent(addr: SocketAddr, certs: &Certs, n: usize, kib: us
         match tokio::time::timeout(Duration::from_secs(12), h).await {
             Err(_) => outs.push("hang".to_string()),
             Ok(Err(_)) => outs.push("panic".to_string()),
-            // a timeout of 400 ms reported more than 3 s after the call was made is not a timely error
-            Ok(Ok((res, dt))) => outs.push(if dt > Duration::from_millis(3000) { format!("late:{}ms", dt.as_millis()) } else { outcome(&res, "?") }),
+            // a timeout of 400 ms reported more than 2 s after the call was made is not a timely error
+            Ok(Ok((res, dt))) => outs.push(if dt > Duration::from_millis(2000) { format!("late:{}ms", dt.as_millis()) } else { outcome(&res, "?") }),
         }
     }
     drop(rs);
@@ -472,7 +472,7 @@ pub fn run(cfg: &Cfg) {
         cases.push("rqwrap 65535".into());
         cases.push("rqwrap 255".into());
         if cfg.tier == Tier::Thorough || searching() { cases.push("rqwrap 131071".into()); }
-        cases.push("rqstallc 10 900".into());
+        cases.push("rqstallc 16 900".into());
         cases.push("rq 2 1 400 rev l,l".into());
         cases.push("rq 1 4 400 rev l,r,d,u".into());
     }
